@@ -89,7 +89,7 @@ Qed.
 Definition header_cell_ok (is_ws : N -> bool) (c : xcell) : bool :=
   match xc_val c with
   | VStr t => negb (is_nil (strip is_ws t)) && negb (startswith t UNNAMED) && str_eqb (xc_str c) t
-              && (match xc_iso c with None => true | Some _ => false end)
+              && (match xc_conv c with None => true | Some _ => false end)
   | _ => false
   end.
 Definition header_ok (is_ws : N -> bool) (g : list (list xcell)) : bool :=
@@ -143,7 +143,7 @@ Qed.
 Lemma header_cell_ok_inv is_ws c :
   header_cell_ok is_ws c = true ->
   exists t, xc_val c = VStr t /\ is_nil (strip is_ws t) = false /\ startswith t UNNAMED = false
-            /\ xc_str c = t /\ xc_iso c = None.
+            /\ xc_str c = t /\ xc_conv c = None.
 Proof.
   unfold header_cell_ok. destruct (xc_val c) as [|t| | | |]; try discriminate.
   intro H. repeat (apply andb_true_iff in H as [H ?]).
@@ -151,7 +151,7 @@ Proof.
   - apply negb_true_iff; assumption.
   - apply negb_true_iff; assumption.
   - apply str_eqb_eq; assumption.
-  - destruct (xc_iso c); [discriminate | reflexivity].
+  - destruct (xc_conv c); [discriminate | reflexivity].
 Qed.
 
 Lemma header_cell_value is_ws c :
@@ -249,7 +249,7 @@ Proof.
 Qed.
 
 Definition xw_int_header : list (list xcell) :=
-  [[xstr (s "a"); {| xc_val := VInt 5; xc_str := s "5"; xc_iso := None |}];
+  [[xstr (s "a"); {| xc_val := VInt 5; xc_str := s "5"; xc_conv := None |}];
    [xstr (s "1"); xstr (s "2")]].
 Example xlsx_typed_header_value :
   xlsx_sheet ws_ascii xw_int_header = [[VStr (s "a"); VStr (s "5")]; [VStr (s "1"); VStr (s "2")]]
@@ -267,7 +267,7 @@ Qed.
 Definition xw_date_header : list (list xcell) :=
   [[xstr (s "d"); {| xc_val := VOther (s "datetime(2024,1,2,0,0)");
                      xc_str := s "2024-01-02 00:00:00";
-                     xc_iso := Some (s "2024-01-02T00:00:00") |}];
+                     xc_conv := Some (s "2024-01-02T00:00:00") |}];
    [xstr (s "1"); xstr (s "2")]].
 Example xlsx_date_header_value :
   xlsx_sheet ws_ascii xw_date_header
@@ -287,7 +287,7 @@ Qed.
 (* ---- B3 non-vacuity *)
 Definition xw_good : list (list xcell) :=
   [[xstr (s "name"); xstr (s "qty")];
-   [xstr (s "x"); {| xc_val := VInt 7; xc_str := s "7"; xc_iso := None |}]].
+   [xstr (s "x"); {| xc_val := VInt 7; xc_str := s "7"; xc_conv := None |}]].
 Example xlsx_sheet_partial_nonvacuous :
   (1 <= 2)%nat /\ header_ok ws_ascii xw_good = true /\ x_rect 2 xw_good = true
   /\ x_last_row_has_data ws_ascii xw_good = true /\ x_last_col_has_data ws_ascii 2 xw_good = true
